@@ -22,8 +22,12 @@ pub(crate) mod kani_iter_world {
     pub struct KA(pub u64);
     pub struct KB(pub [u8; 3]);
 
+    pub struct KC(pub (u8, u64));
+
     crate::ecs_world! {
         ecs_archetype!(KArch, KA, KB);
+        ecs_archetype!(KArch1, KB);
+        ecs_archetype!(KArch3, KC, KA, KB);
     }
 
     #[kani::proof]
@@ -105,4 +109,53 @@ pub(crate) mod kani_iter_world {
             e.dealloc(len); a.dealloc(len); b.dealloc(len);
         }
     }
+
+    // the same step contract for N = 1 and N = 3 columns (thorough tier); `$m` is `const` for IterN and `mut` for IterMutN
+    macro_rules! step_harness {
+        ($name:ident, $iter:ident, $arch:ty, $m:tt, [$(($f:ident, $p:ident, $b:ident, $r:ident, $t:ty)),*]) => {
+            #[kani::proof]
+            fn $name() {
+                let len: usize = kani::any();
+                kani::assume(len <= MAXCAP);
+                let pos: usize = kani::any();
+                kani::assume(pos <= len);
+                let mut e: DataPtr<Entity<$arch>> = DataPtr::with_capacity(len);
+                $(let mut $p: DataPtr<$t> = DataPtr::with_capacity(len);)*
+                unsafe {
+                    let be = e.ptr_data() as *const Entity<$arch>;
+                    $(let $b = $p.ptr_data() as *$m $t;)*
+                    let mut it = $iter::<$arch, $($t,)*> {
+                        remaining: len - pos,
+                        ptr_entity: be.add(pos),
+                        $($f: $b.add(pos),)*
+                        phantom: PhantomData,
+                    };
+                    match it.next() {
+                        None => {
+                            assert!(pos == len);
+                            assert!(it.remaining == 0 && it.ptr_entity == be.add(pos));
+                            $(assert!(it.$f == $b.add(pos));)*
+                        }
+                        Some((re, $($r,)*)) => {
+                            assert!(pos < len);
+                            assert!(re as *const Entity<$arch> == be.add(pos));
+                            $(assert!(($r as *const $t) == ($b.add(pos) as *const $t));)*
+                            assert!(it.remaining == len - pos - 1);
+                            assert!(it.ptr_entity == be.add(pos + 1));
+                            $(assert!(it.$f == $b.add(pos + 1));)*
+                        }
+                    }
+                    kani::cover!(pos + 1 == len && len == MAXCAP);
+                    kani::cover!(pos == len);
+                    e.dealloc(len);
+                    $($p.dealloc(len);)*
+                }
+            }
+        };
+    }
+    use crate::archetype::iter::{Iter1, IterMut1, Iter3, IterMut3};
+    step_harness!(iter_full_step_iter1, Iter1, KArch1, const, [(ptr_d0, p0, b0, r0, KB)]);
+    step_harness!(iter_full_step_iter_mut1, IterMut1, KArch1, mut, [(ptr_d0, p0, b0, r0, KB)]);
+    step_harness!(iter_full_step_iter3, Iter3, KArch3, const, [(ptr_d0, p0, b0, r0, KC), (ptr_d1, p1, b1, r1, KA), (ptr_d2, p2, b2, r2, KB)]);
+    step_harness!(iter_full_step_iter_mut3, IterMut3, KArch3, mut, [(ptr_d0, p0, b0, r0, KC), (ptr_d1, p1, b1, r1, KA), (ptr_d2, p2, b2, r2, KB)]);
 }
